@@ -62,7 +62,7 @@ def run(seed, tier, lean) -> Result:
                       'a model, possibly several times with further operations in between; every preserved attribute, edge set and attacker compared '
                       'before/after on the real objects, and the loaded state with the Lean document model; non-trivial = an attacker with >= 2 reached '
                       'steps and a node with a False label and tags exist when saving')
-    n = 300 if tier == 'quick' else 12000
+    n = 300 if tier == 'quick' else 1800
     hists = []
     for k in range(n):
         g = Gen(random.Random(rnd.getrandbits(48)), WEIGHTS, nmax=rnd.choice([4, 6, 10]), rich=True)
